@@ -52,6 +52,9 @@ func render(pm *openfgav1.AuthorizationModel, source bool) (out string, errs str
 	var opts []transformer.TransformOption
 	if source {
 		opts = append(opts, transformer.WithIncludeSourceInformation(true))
+	} else if len(pm.GetTypeDefinitions())%2 == 1 {
+		// "not requested" has two spellings: no option, or the option with false
+		opts = append(opts, transformer.WithIncludeSourceInformation(false))
 	}
 	s, err := transformer.TransformJSONProtoToDSL(pm, opts...)
 	if err != nil {
